@@ -144,11 +144,11 @@ func (a *observation) diff(b *observation, full bool) string {
 	return strings.Join(d, ",")
 }
 
-// liveSnapshotDiff names the first component in which two snapshots differ,
-// ignoring stack entries above the stack pointer (dead by construction).
+// liveSnapshotDiff names the first field in which two snapshots differ,
+// ignoring stack entries above the stack pointer (dead by construction). The
+// snapshot is a reflective field list, so it follows whatever layout the
+// library has; the stack special case applies only if fields of those names exist.
 func liveSnapshotDiff(a, b *xmss.VerifState) (d string) {
-	// a changed library may lay its buffers out differently: never let the
-	// diagnostic snapshot comparison take the harness down
 	defer func() {
 		if r := recover(); r != nil {
 			d = "snapshot-layout"
@@ -157,28 +157,33 @@ func liveSnapshotDiff(a, b *xmss.VerifState) (d string) {
 	if a == nil || b == nil {
 		return ""
 	}
-	switch {
-	case !bytes.Equal(a.SK, b.SK):
-		return "sk"
-	case a.StackOffset != b.StackOffset:
-		return "stackOffset"
-	case !bytes.Equal(a.Stack[:int(a.StackOffset)*32], b.Stack[:int(b.StackOffset)*32]):
-		return "stack"
-	case !bytes.Equal(a.StackLevels[:a.StackOffset], b.StackLevels[:b.StackOffset]):
-		return "stackLevels"
-	case !bytes.Equal(a.Auth, b.Auth):
-		return "auth"
-	case !bytes.Equal(a.Keep, b.Keep):
-		return "keep"
-	case !bytes.Equal(a.Retain, b.Retain):
-		return "retain"
-	case len(a.TreeHash) != len(b.TreeHash):
-		return "treeHash.len"
+	if len(a.Fields) != len(b.Fields) {
+		return "field-count"
 	}
-	for i := range a.TreeHash {
-		x, y := a.TreeHash[i], b.TreeHash[i]
-		if x.H != y.H || x.NextIdx != y.NextIdx || x.StackUsage != y.StackUsage || x.Completed != y.Completed || !bytes.Equal(x.Node, y.Node) {
-			return "treeHash[" + strconv.Itoa(i) + "]"
+	off := -1
+	for _, f := range a.Fields {
+		if strings.HasSuffix(f.Path, ".stackOffset") {
+			if n, err := strconv.Atoi(string(f.Data)); err == nil {
+				off = n
+			}
+		}
+	}
+	for i := range a.Fields {
+		fa, fb := a.Fields[i], b.Fields[i]
+		if fa.Path != fb.Path {
+			return "field-order"
+		}
+		da, db := fa.Data, fb.Data
+		if off >= 0 && len(da) == len(db) {
+			switch {
+			case strings.HasSuffix(fa.Path, ".stack") && off*32 <= len(da):
+				da, db = da[:off*32], db[:off*32]
+			case strings.HasSuffix(fa.Path, ".stackLevels") && off <= len(da):
+				da, db = da[:off], db[:off]
+			}
+		}
+		if !bytes.Equal(da, db) {
+			return fa.Path
 		}
 	}
 	return ""
@@ -188,14 +193,13 @@ func fullSnapshotDiff(a, b *xmss.VerifState) string {
 	if a == nil || b == nil {
 		return ""
 	}
-	if d := liveSnapshotDiff(a, b); d != "" {
-		return d
+	if len(a.Fields) != len(b.Fields) {
+		return "field-count"
 	}
-	if !bytes.Equal(a.Stack, b.Stack) || !bytes.Equal(a.StackLevels, b.StackLevels) {
-		return "stack(dead part)"
-	}
-	if a.NextLeaf != b.NextLeaf || !bytes.Equal(a.Seed, b.Seed) || a.Desc != b.Desc || a.Height != b.Height || a.HashFunction != b.HashFunction {
-		return "fields"
+	for i := range a.Fields {
+		if a.Fields[i].Path != b.Fields[i].Path || !bytes.Equal(a.Fields[i].Data, b.Fields[i].Data) {
+			return a.Fields[i].Path
+		}
 	}
 	return ""
 }
@@ -592,9 +596,11 @@ func (x *xexec) checkAuthFromSnapshot() {
 		return
 	}
 	s := snap(x.live)
-	if s == nil {
+	if s == nil || s.Auth == nil {
+		x.res.Probes.Add("hook:auth-not-visible", 1)
 		return
 	}
+	x.res.Probes.Add("hook:auth-checked-from-state", 1)
 	x.checkAuth(s.Auth, x.model, "state")
 	if x.model > 0 {
 		x.res.Nontrivial["C01"] = true
@@ -893,7 +899,8 @@ func (x *xexec) compareAuthWithTwin() {
 		return
 	}
 	a, b := snap(x.live), snap(x.twin)
-	if a == nil || b == nil {
+	if a == nil || b == nil || a.Auth == nil || b.Auth == nil {
+		x.res.Probes.Add("hook:auth-not-visible", 1)
 		return
 	}
 	if !bytes.Equal(a.Auth, b.Auth) {
